@@ -371,6 +371,9 @@ def do_check(pid, tier, seed, args, workdir, t_start):
     nviol = 0
     inconclusive = []
     wdir = os.path.join(VERIF, 'evidence', 'witness', pid)
+    if args.no_evidence:
+        # trial runs (seeded changes, unfixed trees) leave the committed evidence alone
+        wdir = os.path.join(VERIF, '.work', 'witness', pid)
     if os.path.isdir(wdir):
         shutil.rmtree(wdir)
     seen_known = set()
